@@ -399,6 +399,14 @@ pub fn values(ex: &Ex) -> Vec<RVal> {
             v.push(RVal::Recipient(RRecipient { protected: prot[0].clone(), unprotected: hdrs[0].clone(), ciphertext: None, recipients: rl }));
         }
     }
+    // signers whose protected headers have the same content in different retained bytes
+    {
+        let h_alg = RHeader { alg: Some(l_int(-7)), ..Default::default() };
+        let wire = |bytes: &[u8], h: &RHeader, sig: u8| RSignature { protected: RProtected { original: Some(bytes.to_vec()), header: h.clone() }, unprotected: RHeader::default(), signature: vec![sig] };
+        let sl = vec![sigs[1].clone(), wire(&[0xa1, 0x01, 0x38, 0x06], &h_alg, 1), sigs[0].clone(), wire(&[0xa0], &RHeader::default(), 2), wire(&[0xbf, 0x01, 0x26, 0xff], &h_alg, 3)];
+        v.push(RVal::Sign(RSign { protected: prot[0].clone(), unprotected: hdrs[0].clone(), payload: Some(b"p".to_vec()), signatures: sl.clone() }));
+        v.push(RVal::Header(RHeader { counter_signatures: sl, ..Default::default() }));
+    }
     // long lists (size thresholds): 17, 65 and 100 signers / recipients / keys / priv-info strings
     for n in [17usize, 65, 100] {
         let many_sigs: Vec<RSignature> = (0..n).map(|k| { let mut s = sigs[k % 3].clone(); s.signature = vec![k as u8]; s }).collect();
